@@ -91,10 +91,10 @@ func (c *pathCtx) path(v ssa.Value) string {
 	}
 	switch x := v.(type) {
 	case *ssa.Parameter:
-		return x.Name()
+		return nameOf(x, x.Name())
 	case *ssa.FreeVar:
 		// a captured variable is a pointer to the outer cell; name it like the outer variable's address
-		return "&" + x.Name()
+		return "&" + nameOf(x, x.Name())
 	case *ssa.Const:
 		if x.Value == nil {
 			return "nil"
@@ -117,7 +117,7 @@ func (c *pathCtx) path(v ssa.Value) string {
 			}
 		}
 		if x.Comment != "" && x.Comment != "complit" && !strings.HasPrefix(x.Comment, "new") {
-			return "&" + x.Comment
+			return "&" + nameOf(x, x.Comment)
 		}
 		return "&alloc:" + x.Comment + ":" + typeStr(deptr(x.Type()))
 	case *ssa.UnOp:
